@@ -16,7 +16,7 @@ from typing import Any, Callable
 
 ROOT = Path(__file__).resolve().parent.parent
 LEAN = ROOT / "lean"
-MODELD = LEAN / ".lake" / "build" / "bin" / "modeld"
+BIN = LEAN / ".lake" / "build" / "bin"
 EVIDENCE = ROOT / "evidence"
 REPLAYS = ROOT / "replays"
 CORPUS = ROOT / "corpus"
@@ -66,11 +66,13 @@ def strip_comments(src: str) -> str:
     return "".join(out)
 
 
-def lake_build() -> tuple[bool, str]:
+def lake_build(targets: list[str]) -> tuple[bool, str]:
+    """Build only what this property needs (its Props module and its model drivers), so that
+    a broken file of another property cannot disturb this check."""
     p = subprocess.run(
-        ["lake", "build"], cwd=LEAN, capture_output=True, text=True, timeout=3000
+        ["lake", "build", *targets], cwd=LEAN, capture_output=True, text=True, timeout=3000
     )
-    return p.returncode == 0 and MODELD.exists(), (p.stdout + p.stderr)[-6000:]
+    return p.returncode == 0, (p.stdout + p.stderr)[-6000:]
 
 
 def prop_theorems(prop: str) -> list[str]:
@@ -141,7 +143,8 @@ def run_model(model: str, lines: list[str]) -> list[str]:
     if not lines:
         return []
     p = subprocess.run(
-        [str(MODELD), model], input="\n".join(lines) + "\n", capture_output=True, text=True, timeout=1200
+        [str(BIN / f"md_{model}")], input="\n".join(lines) + "\n", capture_output=True, text=True,
+        timeout=1200,
     )
     if p.returncode != 0:
         raise RuntimeError(f"modeld {model} exited {p.returncode}: {p.stderr[-500:]}")
@@ -252,6 +255,7 @@ def check_main(
     level: str = "proof",
     technique_note: str = "",
     replay: Callable[[Ctx, Any], Result] | None = None,
+    models: list[str] | None = None,
     assumptions: list[str] | None = None,
     quick_s: float = 70.0,
     thorough_s: float = 800.0,
@@ -280,7 +284,7 @@ def check_main(
         print(f"VIOLATION property={prop} replay={replay_path}{suffix}", flush=True)
 
     # 1. build
-    ok, log = lake_build()
+    ok, log = lake_build([f"AnyioModel.Props.{prop}"] + [f"md_{m}" for m in (models or [])])
     build_problem = None if ok else "lake build failed:\n" + log[-3000:]
     # 2. audit
     aud = {"theorems": [], "clean": [], "partial": [], "axioms": [], "problems": []}
